@@ -203,3 +203,99 @@ func VH_cache_Par() {
 	vAssert(int(c.Size()) <= limit, "Size never exceeds the limit after the calls")
 	vAssert(vLinearizable(ref, calls, make([]int, nthreads), c, log), "every call's result is explained by some sequential order respecting real time (linearizable), with each departing entry reported exactly once")
 }
+
+// vStatStore is a caller-supplied Store that keeps plain (unsynchronised)
+// statistics in every method, Check included: the documentation promises that a
+// Cache serializes access to the methods of its Store, so this is legal.
+type vStatStore struct {
+	keys, vals []int
+	calls      int
+}
+
+func (s *vStatStore) find(k int) int {
+	for i, x := range s.keys {
+		if x == k {
+			return i
+		}
+	}
+	return -1
+}
+func (s *vStatStore) Access(k int) (int, bool) { return s.Check(k) }
+func (s *vStatStore) Check(k int) (int, bool) {
+	s.calls++
+	if i := s.find(k); i >= 0 {
+		return s.vals[i], true
+	}
+	return 0, false
+}
+func (s *vStatStore) Store(k, v int) {
+	s.calls++
+	s.keys, s.vals = append(s.keys, k), append(s.vals, v)
+}
+func (s *vStatStore) Remove(k int) {
+	s.calls++
+	if i := s.find(k); i >= 0 {
+		s.keys = append(append([]int{}, s.keys[:i]...), s.keys[i+1:]...)
+		s.vals = append(append([]int{}, s.vals[:i]...), s.vals[i+1:]...)
+	}
+}
+func (s *vStatStore) Evict() (int, int) {
+	s.calls++
+	k, v := s.keys[0], s.vals[0]
+	s.keys, s.vals = s.keys[1:], s.vals[1:]
+	return k, v
+}
+
+// VH_cache_ParStore: concurrent calls on a cache built on a caller-supplied
+// store with unsynchronised bookkeeping: no data race inside the store (the
+// cache must serialize every store method, the read-only ones included), and
+// every store call is counted.
+func VH_cache_ParStore() {
+	st := &vStatStore{}
+	c := New(int64(vCase("limit")), Config[int, int]{}.WithStore(st))
+	keys := []int{vOrd("key"), vOrd("key")}
+	c.Put(keys[0], 1)
+	base := st.calls
+	pick := func() func() {
+		kind, k := vChoice("kind", 4), keys[vChoice("key", 2)]
+		return func() {
+			switch kind {
+			case 0:
+				c.Has(k)
+			case 1:
+				c.Get(k)
+			case 2:
+				c.Put(k, 7)
+			default:
+				c.Remove(k)
+			}
+		}
+	}
+	f, g := pick(), pick()
+	vPar(f, g)
+	vCover("par-store")
+	vAssert(st.calls >= base+2, "every call reached the store and no update of its bookkeeping was lost")
+}
+
+// VH_cache_PanicUnlock: a caller-supplied size function panics for one value;
+// the caller recovers. The failed call must not leave the cache locked, and the
+// cache must be unchanged by it.
+func VH_cache_PanicUnlock() {
+	poison := 13
+	c := New(4, LRU[int, int]().WithSize(func(v int) int64 {
+		if v == poison {
+			panic("cannot size this value")
+		}
+		return 1
+	}))
+	c.Put(1, 10)
+	c.Put(2, 20)
+	panicked, _ := vPanics(func() { c.Put(3, poison) })
+	vAssert(panicked, "the size function's panic reaches the caller")
+	vCover("panic-unlock")
+	// any later call deadlocks if the lock was not released
+	vAssert(c.Len() == 2 && c.Size() == 2, "a Put that panicked in the size function leaves the cache usable and unchanged")
+	v, ok := c.Get(1)
+	vAssert(ok && v == 10 && c.Has(2) && !c.Has(3), "contents are intact after the failed Put")
+	vAssert(c.Put(3, 30) && c.Len() == 3, "the cache keeps working after the failed Put")
+}
